@@ -176,8 +176,13 @@ def feature_builds(ctxt, step, vc):
                 key = (r.get("k"), r.get("tn"))
                 i = cnt.get(key, 0)
                 cnt[key] = i + 1
+                # what is compared across configurations: bytes, verdicts, values and bytes consumed - of the recording
+                # base run and of every run on a back-end that exists in all configurations (a failed read that moves the
+                # input in one configuration only shows in the bytes consumed of the plain slice)
+                common = [[x.get("be"), x.get("st"), x.get("res"), x.get("n"), x.get("v")] for x in r.get("runs", [])
+                          if x.get("be") in ("slice", "rec", "unk", "bytes")]
                 obs = json.dumps([r.get("out"), r.get("res"), r.get("v"), r.get("base", {}).get("res"), r.get("base", {}).get("v"),
-                                  r.get("base", {}).get("n"), r.get("inp")], sort_keys=True)
+                                  r.get("base", {}).get("n"), r.get("inp"), common], sort_keys=True)
                 d[(r.get("k"), r.get("tn"), i)] = hashlib.sha1(obs.encode()).hexdigest()
         digests[name] = d
         ctxt["evidence"].setdefault("configurations", []).append(dict(name=name, features=feats, records=n, accepted=acc))
